@@ -13,6 +13,9 @@ O3  ShareSet.__init__ / recover with symbolic header fields: what is accepted is
     O3-digest-enforced: k shares with consistent headers and arbitrary values: recover() returns only when the digest equation holds.
 O4  Share.mnemonic / Share.parse bit packing through a handle word list, RS1024 (real rs1024_polymod, if-converted):
     one-step XOR-linearity from an arbitrary state, per-position syndrome maps, every <= 3-word error pattern detected.
+    O4-parse-detect: the real Share.parse on every well-formed share (all header / value words symbolic) with symbolic
+    substitutions at up to three word positions: it returns only for the unchanged share (whatever customization strings / target
+    values the parser compares against enter the decision).
 O5  decrypt(encrypt(x)) == x with PBKDF2 uninterpreted.
 O6  generate_shares -> recover_mnemonic wiring with the BIP39 codec and the checksum polynomial as seams.
 
@@ -68,6 +71,11 @@ META = {
                       "position of 20- and 33-word shares: syndrome map of a single symbolic error on the real function and rejection of "
                       "every single-word substitution by the real rs1024_verify_checksum; 2- and 3-word errors: 16 sampled position "
                       "pairs and 16 sampled position triples per share length, all error symbols symbolic",
+            "parse under corruption": "20- and 33-word shares: every well-formed base share (17 / 30 header and value words symbolic, padding "
+                                      "zero, group threshold <= count, checksum words by the reference polynomial) x 24 position triples per "
+                                      "length (checksum words, header words, bursts, mixed; the rest sampled) x every value of the three "
+                                      "10-bit differences (sub-patterns, i.e. 1- and 2-word substitutions on the triple, included): the real "
+                                      "Share.parse returns only when all differences are 0",
             "codec": "Share.mnemonic / Share.parse for 128- and 256-bit shares with every header field and the value symbolic; every "
                      "sequence of 20 / 33 list words (full words, four-letter prefixes, alternating) accepted exactly when checksum, "
                      "padding and threshold <= count hold, and re-encoded identically; one unknown word at positions 0, 4, last",
@@ -87,6 +95,7 @@ META = {
                        "(three symbolic group indices exceed the 60000-path budget)",
             "rs1024": "left fold for prefixes of 0..3 symbols (affinity 0..2); every position triple of 20-word (1140) and 33-word (5456) shares with three symbolic "
                       "error symbols (each triple covers its sub-patterns, hence every 1-, 2- and 3-word error)",
+            "parse under corruption": "every position triple of 20-word (1140) and 33-word (5456) shares (about 1.2 s per triple)",
             "digest enforced": "additionally k = 4, 5, more x-coordinate sets, 3 shares against threshold 2",
             "codec": "same plus the all-prefix form", "feistel": "passphrase lengths 0,1,2 and 6,13,40,100 (capped)",
             "wiring": "(1,1),(1,3),(2,2),(2,3),(3,5),(5,5),(2,8) over 16/32-byte secrets, exponents 0..2, sampled subsets for n >= 5"}},
@@ -111,6 +120,10 @@ META = {
         "RS1024 affinity at full length rests on: (i) XOR-linearity of one loop step from an arbitrary state (z3, real function), (ii) the "
         "function being a left fold of that step (read off the source; z3-checked for prefixes of 0..3 symbols), (iii) direct symbolic "
         "runs of the real function with one symbolic word at each position of 20- and 33-word shares",
+        "judgement: 'any corruption of up to three words is rejected by the checksum' is demanded of Share.parse as a whole (O4-parse-detect): "
+        "a substituted share must not be returned; a refusal by the padding / threshold checks after the checksum counts as rejected. "
+        "The base ranges over the well-formed shares of the SLIP39 layout with customization string b'shamir' (what Share.mnemonic / "
+        "generate_shares produce, O4-encode); substituted words are list words written in full (a non-list word is O4-decode's unknown word)",
         "Unicode normalisation of passphrases; passphrases are bytes", "exponents above 2 in O5/O6 (the iteration count is a PBKDF2 argument only)",
         "BIP39 encoding / decoding of the master secret (C14); in O6 it is a seam"],
     "stubs": [
@@ -131,6 +144,10 @@ META = {
         "O4-rs-detect: the per-position syndrome columns are computed by concrete runs of the current rs1024_polymod (their agreement "
         "with the symbolic run of the real function is O4-rs-positions); the GF(2) left inverse used as a certificate is computed by "
         "the harness and only its product with the syndrome map is trusted to z3",
+        "O4-parse-detect: the real rs1024_polymod runs (if-converted) on the symbolic words; its result is rewritten by symx/anf.py (DAG "
+        "pass, strict: anything not XOR-affine is left as it is) into constant ^ A*e; the syndrome A*e is let-bound to a fresh 30-bit "
+        "variable and the equation N*(A*e) == e (N: left inverse by harness Gaussian elimination) is proved by z3 before it is kept on "
+        "the path; the rewritten value is compared with the native function on random words in every worker",
         "O6: mnemonic_to_bytes / bytes_to_mnemonic are seams (arbitrary secret in, token out)",
         "a witness found on uninterpreted hashes is reported only when it reproduces with the real hashlib / hmac (replay)"],
     "assumptions": [
@@ -1005,6 +1022,14 @@ def spec_rs_step(chk, v):
     return chk
 
 
+def spec_rs_fold(values):
+    """SLIP39 checksum polynomial as the left fold of spec_rs_step from the state 1 (ints or proxies)"""
+    chk = 1
+    for v in values:
+        chk = spec_rs_step(chk, v)
+    return chk
+
+
 def _pack3(t):
     return (t[0] << 20) | (t[1] << 10) | t[2]
 
@@ -1352,6 +1377,220 @@ def replay_rs_detect(w):
     acc = rs1024_verify_checksum(CS, list(bad))
     return {"violated": bool(acc), "observed": f"{nwords}-word share indices {cw}: changing positions {ps} by xor {es} gives a sequence that "
                                                f"{'passes' if acc else 'fails'} the RS1024 checksum"}
+
+
+# ---- the acceptance predicate of the real Share.parse under <= 3 substituted words (every well-formed share as the base)
+
+def _plain_ite(c, a, b):
+    """`a if c else b` of rs1024_polymod as a non-forking ite on the plain truth value of c (the form symx.anf reads as one bit)"""
+    if isinstance(c, SI):
+        return s_ite(c != 0, a, b)
+    if isinstance(c, SB):
+        return s_ite(c, a, b)
+    return a if c else b
+
+
+def _detect_seam(sp, evars, state, wit):
+    """what the real parse sees as rs1024_polymod: the real (if-converted) function runs on the symbolic word values; its result is
+    rewritten into the XOR-affine normal form c0 ^ A*e (symx.anf DAG pass; semantics preserving rewriting, cross-checked in C09 and
+    on random vectors below).  When nothing but bits of the error symbols is left in it (the data words cancel against the checksum
+    words that were computed from them), the syndrome A*e gets a name `syndrome<k>` (let-binding) and z3 proves the certificate
+    N*(A*e) == e for a left inverse N computed by the harness; the proved equation is then kept on the path (a consequence of the
+    let-binding, so it excludes nothing), so that whatever comparison the code under test makes on the result propagates to e."""
+    from symx import anf
+    real = _STATE["real_polymod"]
+
+    def polymod(values):
+        values = list(values)
+        r = real(values)
+        if isinstance(r, int):
+            return r
+        state["calls"].append(list(itertools.takewhile(lambda v: isinstance(v, int) and 0 <= v < 256, values)))   # the customization string
+        try:
+            masks = anf.forms(r, 30, sp)
+        except anf.NotAffine:
+            return r
+        c0, cols = anf.columns(masks)
+        by = {e.n.id: j for j, e in enumerate(evars)}
+        acols = [0] * (10 * len(evars))
+        for idx, col in cols.items():
+            node, bit = sp.atoms[idx]
+            j = by.get(node.id)
+            if j is None or bit >= 10:
+                return wrap(anf.rebuild(masks, sp))      # data bits are left: normal form only
+            acols[10 * j + bit] = col
+        key = tuple(acols)
+        sv = state["named"].get(key)
+        if sv is None:
+            syn, packed = 0, 0
+            for j, x in enumerate(evars):
+                syn = syn ^ _mat_apply(acols[10 * j:10 * j + 10], x)
+                packed = packed | (x << (10 * j))
+            sv = SI.var(f"syndrome{len(state['named'])}", 0, (1 << 30) - 1)
+            assume(sv == syn)
+            ninv = _gf2_left_inverse(acols) if len(acols) <= 30 else None
+            if ninv is not None:
+                lemma = _mat_apply(ninv, sv) == packed
+                if check(lemma, "certificate: the error symbols are not the harness's linear function of the syndrome", witness=wit, fresh=True,
+                         timeout_ms=120000):
+                    assume(lemma)
+                    state["certified"] += 1
+            state["named"][key] = sv
+        return sv ^ c0
+    return polymod
+
+
+def _parse_detect_path(nwords, ps):
+    """base: EVERY well-formed share of nwords words (all header / value words symbolic, padding zero, threshold <= count, the three
+    checksum words computed from them by the reference polynomial); corrupted: the base with symbolic differences e_j xor-ed into
+    the words at positions ps.  The real Share.parse (real word lookup methods over the handle list, real rs1024_verify_checksum /
+    rs1024_polymod) runs on the corrupted words: it may return only when every e_j is 0."""
+    from symx import anf
+    sh, S = mods()
+    hs = install_handles()
+    sp = anf.Space(opaque=False)
+    nd = nwords - 3
+    nbits = (nwords - 7) * 10 // 16 * 16
+    pad = (nwords - 7) * 10 - nbits
+    data = [SI.var(f"w[{k}]", 0, (1023 >> pad) if k == 4 else 1023) for k in range(nd)]      # word 4 carries the (zero) padding bits
+    es = [SI.var(f"e{j}", 0, 1023) for j in range(len(ps))]
+
+    def wit(env):
+        return {"kind": "parse", "nwords": nwords, "data": [env[f"w[{k}]"] for k in range(nd)], "positions": list(ps),
+                "errors": [env[f"e{j}"] for j in range(len(ps))], "customizations": [bytes(c).decode("latin1") for c in state["calls"]]}
+    state = {"calls": [], "named": {}, "certified": 0}
+    gt = ((data[2] >> 2) & 15) + 1
+    gc = (((data[2] & 3) << 2) | (data[3] >> 8)) + 1
+    assume(gt <= gc)
+    pm = anf.normalize(spec_rs_fold(list(CS) + data + [0, 0, 0]), 30, sp) ^ 1
+    base = data + [(pm >> (10 * (2 - i))) & 1023 for i in range(3)]
+    cor = list(base)
+    for p, e in zip(ps, es):
+        cor[p] = cor[p] ^ e
+    text = " ".join(hs.token(i) for i in cor)
+    ite0 = sh.__dict__["__sx_ite__"]
+    sh.__dict__["__sx_ite__"] = _plain_ite
+    sh.rs1024_polymod = _detect_seam(sp, es, state, wit)
+    try:
+        try:
+            share = sh.Share.parse(text)
+        except Exception as ex:
+            check(True, "rejected")
+            return "rejected:" + type(ex).__name__
+    finally:
+        sh.rs1024_polymod = _STATE["real_polymod"]
+        sh.__dict__["__sx_ite__"] = ite0
+    check(s_and(*[e == 0 for e in es]), f"Share.parse accepts a well-formed {nwords}-word share with substituted words at positions {list(ps)}",
+          witness=wit, timeout_ms=120000)
+    check(share.share_bit_length == nbits, "share length", witness=wit)
+    return "accepted"
+
+
+def _detect_sets(nwords, weight, sample, seed):
+    """position sets: always the checksum words, the header words, a burst in the value, one word of each region; then sampled ones"""
+    n = nwords
+    fixed = [(n - 3, n - 2, n - 1), (0, 1, 2), (1, 2, 3), (6, 7, 8), (0, 4, n - 1), (3, n // 2, n - 2), (4, 5, n - 3)]
+    fixed = [tuple(sorted(set(t)))[:weight] for t in fixed]
+    allsets = list(itertools.combinations(range(n), weight))
+    if sample is None or sample >= len(allsets):
+        return allsets
+    rng = _random.Random(seed)
+    out = []
+    for t in fixed + rng.sample(allsets, len(allsets)):
+        if len(t) == weight and t not in out:
+            out.append(t)
+        if len(out) >= sample:
+            break
+    return out
+
+
+def _selfcheck_seam(nwords, ps):
+    """the seam's normal form against the native function on random concrete words"""
+    from symx import anf
+    nat = loader.native("shamir")
+    rng = _random.Random(nwords * 31 + sum(ps))
+    for cs in (CS, b"x", b""):
+        def f():
+            sp = anf.Space(opaque=False)
+            es = [SI.var(f"e{j}", 0, 1023) for j in range(len(ps))]
+            st = {"calls": [], "named": {}, "certified": 0}
+            words = [rng.randrange(1024) for _ in range(nwords)]
+            cor = list(words)
+            for p, e in zip(ps, es):
+                cor[p] = cor[p] ^ e
+            sh = _STATE["sh"]
+            ite0 = sh.__dict__["__sx_ite__"]
+            sh.__dict__["__sx_ite__"] = _plain_ite
+            try:
+                r = _detect_seam(sp, es, st, None)(list(cs) + cor)
+            finally:
+                sh.__dict__["__sx_ite__"] = ite0
+            for _ in range(4):
+                vals = [rng.randrange(1024) for _ in ps]
+                conc = list(words)
+                for p, v in zip(ps, vals):
+                    conc[p] ^= v
+                env = {f"e{j}": v for j, v in enumerate(vals)}
+                want = nat.rs1024_polymod(list(cs) + conc)
+                check(s_implies(s_and(*[e == v for e, v in zip(es, vals)]), r == want), "seam self-check: normal form differs from the native "
+                      "rs1024_polymod", witness=lambda env_, conc=conc, cs=cs: {"kind": "seam", "values": list(cs) + conc})
+            return "ok"
+        c, out = core.explore(f)
+        if c.violations or c.inconclusive or not out:
+            raise RuntimeError(f"parse-detect seam disagrees with the native rs1024_polymod: {c.violations[:1]} {c.inconclusive[:1]}")
+
+
+@_with_mods
+def ob_parse_detect(nwords, weight, chunk, nchunks, sample=None):
+    sets = _detect_sets(nwords, weight, sample, nwords * 13 + weight)[chunk::nchunks]
+    if sets:
+        _selfcheck_seam(nwords, sets[0])
+    runs = [sym_run(lambda: _parse_detect_path(nwords, ps), expect_classes=["accepted", "rejected:ValueError"], timeout_ms=120000, max_violations=4)
+            for ps in sets]
+    r = merge_runs(runs)
+    r["sample"] = {"words": nwords, "base share": "every header and value word symbolic (padding zero, threshold <= count), checksum words from the "
+                                                  "reference polynomial", "positions per set": weight, "sets": len(sets), "of": _comb(nwords, weight),
+                   "first sets": [list(s) for s in sets[:8]], "errors": "symbolic 10-bit differences (every pattern on the set, sub-patterns included)"}
+    return r
+
+
+def replay_parse_detect(w):
+    """native Share.parse on a well-formed share (reference checksum over the witness's header / value words) and on the same words
+    with the witness's substitutions: violated when the substituted sequence (1..3 words differ) is accepted"""
+    from buidl.shamir import Share
+    if w.get("kind") != "parse":
+        return {"violated": False, "observed": "harness self-check witness"}
+    nwords, data, ps, es = w["nwords"], list(w["data"]), w["positions"], w["errors"]
+    words = _real_words()
+    base = data + spec_checksum(data)
+    nbits = (nwords - 7) * 10 // 16 * 16
+    value = 0
+    for i in base[4:-3]:
+        value = (value << 10) | i
+    gt = ((base[2] >> 2) & 15) + 1
+    gc = (((base[2] & 3) << 2) | (base[3] >> 8)) + 1
+    wellformed = len(base) == nwords and spec_rs1024_polymod(list(CS) + base) == 1 and (value >> nbits) == 0 and gt <= gc and nbits >= 128
+    if not wellformed:
+        return {"violated": False, "observed": "the base of the witness is not a well-formed share"}
+    try:
+        Share.parse(_words_of(base, None, words))
+    except Exception as ex:
+        return {"violated": False, "observed": f"the well-formed base share is itself refused ({ex!r}): subject of O4-decode"}
+    bad = list(base)
+    for p, e in zip(ps, es):
+        bad[p] ^= e
+    changed = [k for k in range(nwords) if bad[k] != base[k]]
+    if not 1 <= len(changed) <= 3:
+        return {"violated": False, "observed": f"{len(changed)} words differ"}
+    text = _words_of(bad, None, words)
+    try:
+        s = Share.parse(text)
+    except Exception as ex:
+        return {"violated": False, "observed": f"rejected: {ex!r}"}
+    cws = [c for c in (w.get("customizations") or [])]
+    return {"violated": True, "observed": f"Share.parse accepts {text!r}, which differs from the well-formed share {_words_of(base, None, words)!r} in the "
+                                          f"{len(changed)} word(s) at positions {changed} (parsed value {s.value:#x}, base value {value:#x}; checksum "
+                                          f"prefixes the parser tried: {cws})"}
 
 
 # ---- share mnemonic codec (handle word list, checksum polynomial composed from the lemmas above)
@@ -1816,6 +2055,11 @@ def obligations(tier):
             for ch in range(nch):
                 obs.append(Ob("O4-rs-detect", ob_rs_detect, {"nwords": nwords, "weight": 3, "chunk": ch, "nchunks": nch}, replay="rs_detect",
                               budget_s=2400))
+    # the acceptance predicate of the real Share.parse on corrupted well-formed shares (base share symbolic)
+    for nwords, nch, smp in (((20, 2, 24), (33, 2, 24)) if q else ((20, 16, None), (33, 64, None))):
+        for ch in range(nch):
+            obs.append(Ob("O4-parse-detect", ob_parse_detect, {"nwords": nwords, "weight": 3, "chunk": ch, "nchunks": nch, "sample": smp},
+                          replay="parse_detect", budget_s=600 if q else 2400))
     pats = ("full", "alternating") if q else ("full", "prefix", "alternating")
     for nbits in (128, 256):
         obs.append(Ob("O4-encode", ob_encode, {"nbits": nbits, "patterns": pats}, replay="encode"))
